@@ -155,6 +155,7 @@ def gen_case(rng, tier, kind=None, N=None, nc=None):
         "stats_layout": rng.choice([None, None, None, "fortran", "stacked", "strided"]),
         "failed_first": rng.choice([None] * 9 + [0, 1, 2, 3, 5, 8, 13, 21, 34]),
         "failed_first_same_machine": rng.random() < 0.6,
+        "failed_mid": rng.random() < 0.5,
         "bagform": (rng.choice(["plain", "plain", "concat_mapped", "generator", "mapped",
                                 "from_delayed", "repartitioned", "filtered"])
                     if kind == "ivector" else
@@ -163,7 +164,9 @@ def gen_case(rng, tier, kind=None, N=None, nc=None):
                 "it": tail(rng, 1, 3, [6], 0.03),
                 "rf": rng.choice([4.0, 1.0, 10.0]), "rs": rng.randint(0, 1000),
                 "dim_t": tail(rng, 1, 3, [5, 9, 17], 0.05), "update_sigma": rng.random() < 0.6,
-                "floor": rng.choice([1e-10, 1e-3 * scale * scale]),
+                # (floors from negligible to above some / all of the UBM's variances)
+                "floor": rng.choice([1e-10, 1e-3 * scale * scale, 1e-3 * scale * scale,
+                                     0.8 * scale * scale, 1.2 * scale * scale, 3.0 * scale * scale]),
                 "conv_thr": rng.choice([None, None, 1e-9, 1e-3, 0.5])},
         "np_seed": rng.randint(0, 2 ** 31 - 1),
         # a long-lived machine object: used (enrolment) or trained before this training
@@ -535,7 +538,8 @@ def run_case(case, replay=None):
             with np.errstate(all="ignore"):
                 _fit_bag(case, carry)
         try:
-            rec.run(dict(sched, fail_after=case["failed_first"]), first, np_seed=case["np_seed"],
+            rec.run(dict(sched, fail_after=case["failed_first"],
+                         fail_mid=bool(case.get("failed_mid"))), first, np_seed=case["np_seed"],
                     label="failed")
             rec.probe("first_attempt_finished_before_the_failure_point")
         except InjectedTaskFailure:
